@@ -626,11 +626,215 @@ def part_gen(spec, mon):
     flush(mon)
 
 
+def _fn(m, name, ret, ptys):
+    from ppci import ir
+    f = ir.Function(name, ir.Binding.GLOBAL, ret) if ret is not None else ir.Procedure(name, ir.Binding.GLOBAL)
+    m.add_function(f)
+    ps = []
+    for i, t in enumerate(ptys):
+        p = ir.Parameter("p%d" % i, t)
+        f.add_parameter(p)
+        ps.append(p)
+    b = ir.Block(name + "_b0")
+    f.add_block(b)
+    f.entry = b
+    return f, ps, b
+
+
+FVALS = [0.0, -0.0, 1.0, -1.0, 0.5, 2.5, -2.5, 3.75, 1e10, -1e10, 1e-10, 16777217.0, 0.1, 255.9, -128.9, 65535.5,
+         0.49999999999999994, 1.5, -0.5, -1.5, 4294967295.5, 2147483647.0]
+
+
+def part_matrix(spec, mon):
+    """One function per operator / cast / comparison of one type; operands are parameters."""
+    from ppci import ir
+    from vlib.irgen import boundary_int
+    avoid = spec["avoid"]
+    tyname = spec["ty"]
+    ty = ir.get_ty(tyname)
+    r = rng(spec["seed"], PROPERTY, "matrix" + tyname)
+    isf = not ty.is_integer
+    sel = matrix_select(tyname, avoid)
+    if sel is None:
+        return
+    ops, unops, cast_to, conds = sel
+    nvec = 40 if spec["tier"] == "quick" else 400
+
+    def val():
+        if isf:
+            v = r.choice(FVALS)
+            return struct.unpack("<f", struct.pack("<f", v))[0] if ty.bits == 32 else v
+        return boundary_int(r, ty)
+
+    mods = []
+
+    class _Argv(dict):
+        """one module per function: an unsupported operator must not hide the others"""
+
+    argv = _Argv()
+
+    def newmod():
+        mm = ir.Module("matrix")
+        mods.append(mm)
+        return mm
+
+    for op in ops:
+        m = newmod()
+        f, (a, b), blk = _fn(m, "op_%d" % len(argv), ty, [ty, ty])
+        t = ir.Binop(a, op, b, "t", ty)
+        blk.add_instruction(t)
+        blk.add_instruction(ir.Return(t))
+        vecs = []
+        for _ in range(nvec):
+            x, y = val(), val()
+            if op in ("/", "%") and not isf and (y == 0 or (ty.signed and y == -1)):
+                y = r.choice([1, 2, 3, 7])
+            if op == "/" and isf and y == 0.0:
+                y = 2.0
+            if op in ("<<", ">>"):
+                y = r.randrange(ty.bits)
+            vecs.append([x, y])
+        argv[f.name] = vecs
+        mon.count("matrix_ops", op, len(vecs))
+        # result used by a widening cast, a comparison and a store: what a missing wrap would disturb
+        if not isf:
+            wide = ir.i64 if ty.bits < 64 else ir.f64
+            if True:
+                m = newmod()
+                f2, (a, b, c), blk = _fn(m, "opuse_%d" % len(argv), ir.i32, [ty, ty, ty])
+                t = ir.Binop(a, op, b, "t", ty)
+                blk.add_instruction(t)
+                yes, no = ir.Block(f2.name + "_y"), ir.Block(f2.name + "_n")
+                f2.add_block(yes)
+                f2.add_block(no)
+                blk.add_instruction(ir.CJump(t, r.choice(["<", ">=", "==", ">"]), c, yes, no))
+                one = ir.Const(1, "one", ir.i32)
+                yes.add_instruction(one)
+                yes.add_instruction(ir.Return(one))
+                zero = ir.Const(0, "zero", ir.i32)
+                no.add_instruction(zero)
+                no.add_instruction(ir.Return(zero))
+                argv[f2.name] = [v + [val() if r.random() < 0.6 else Mon_wrap(ty, v[0], op, v[1])] for v in vecs]
+    for op in unops:
+        m = newmod()
+        f, (a,), blk = _fn(m, "un_%d" % len(argv), ty, [ty])
+        t = ir.Unop(op, a, "t", ty)
+        blk.add_instruction(t)
+        blk.add_instruction(ir.Return(t))
+        argv[f.name] = [[val()] for _ in range(nvec)]
+        mon.count("matrix_ops", "u" + op, nvec)
+    for c in conds:
+        m = newmod()
+        f, (a, b), blk = _fn(m, "cmp_%d" % len(argv), ir.i32, [ty, ty])
+        yes, no = ir.Block(f.name + "_y"), ir.Block(f.name + "_n")
+        f.add_block(yes)
+        f.add_block(no)
+        blk.add_instruction(ir.CJump(a, c, b, yes, no))
+        one = ir.Const(1, "one", ir.i32)
+        yes.add_instruction(one)
+        yes.add_instruction(ir.Return(one))
+        zero = ir.Const(0, "zero", ir.i32)
+        no.add_instruction(zero)
+        no.add_instruction(ir.Return(zero))
+        vecs = []
+        for _ in range(nvec):
+            x = val()
+            vecs.append([x, x if r.random() < 0.25 else val()])
+        argv[f.name] = vecs
+        mon.count("matrix_ops", "cmp" + c, nvec)
+    for dn in cast_to:
+        dty = ir.get_ty(dn)
+        m = newmod()
+        f, (a,), blk = _fn(m, "cast_%s" % dn, dty, [ty])
+        t = ir.Cast(a, "t", dty)
+        blk.add_instruction(t)
+        blk.add_instruction(ir.Return(t))
+        vecs = []
+        for _ in range(nvec):
+            v = val()
+            if isf and dty.is_integer:
+                lo = -(1 << (dty.bits - 1)) if dty.signed else 0
+                hi = (1 << (dty.bits - 1)) - 1 if dty.signed else (1 << dty.bits) - 1
+                if not (lo <= int(v) <= hi) or abs(v) >= 2.0 ** 63:
+                    v = r.choice([0.5, 1.5, 2.5, 3.7, 100.99, 0.999])
+                    if dty.signed and r.random() < 0.5:
+                        v = -v
+                if ty.bits == 32:
+                    v = struct.unpack("<f", struct.pack("<f", v))[0]
+            vecs.append([v])
+        argv[f.name] = vecs
+        mon.count("matrix_ops", "cast", len(vecs))
+        # memory round trip of the cast result
+        m = newmod()
+        f, (a,), blk = _fn(m, "castmem_%s" % dn, dty, [ty])
+        al = ir.Alloc("al", 8, 8)
+        blk.add_instruction(al)
+        ad = ir.AddressOf(al, "ad")
+        blk.add_instruction(ad)
+        t = ir.Cast(a, "t", dty)
+        blk.add_instruction(t)
+        blk.add_instruction(ir.Store(t, ad))
+        ld = ir.Load(ad, "ld", dty)
+        blk.add_instruction(ld)
+        blk.add_instruction(ir.Return(ld))
+        argv[f.name] = vecs
+    for m in mods:
+        fname = m.functions[0].name
+        prepare_module(m, {fname: argv[fname]}, mon, {"id": "matrix/%s/%s" % (tyname, fname)}, "matrix",
+                       replay=dict(spec))
+    flush(mon)
+
+
+def Mon_wrap(ty, a, op, b):
+    """the wrapped result of a op b (so that the comparison in opuse_* sees equality often)"""
+    bits = ty.bits
+    try:
+        if op == "+":
+            v = a + b
+        elif op == "-":
+            v = a - b
+        elif op == "*":
+            v = a * b
+        elif op == "&":
+            v = a & b
+        elif op == "|":
+            v = a | b
+        elif op == "^":
+            v = a ^ b
+        elif op == "<<":
+            v = a << b
+        elif op == ">>":
+            v = a >> b
+        else:
+            q = abs(a) // abs(b)
+            if (a < 0) != (b < 0):
+                q = -q
+            v = q if op == "/" else a - q * b
+    except (ZeroDivisionError, ValueError):
+        v = 0
+    v &= (1 << bits) - 1
+    if ty.signed and v >> (bits - 1):
+        v -= 1 << bits
+    return v
+
+
+def matrix_select(tyname, avoid):
+    """(binops, unops, cast targets, conditions) of the matrix for one type under the avoid switches"""
+    isf = tyname[0] == "f"
+    ops = ["+", "-", "*", "/"] if isf else ["+", "-", "*", "/", "%", "&", "|", "^", "<<", ">>"]
+    unops = ["-"] if isf else ["-", "~"]
+    cast_to = list(ALL_TYPES)
+    conds = ["==", "!=", "<", ">", "<=", ">="]
+    return ops, unops, cast_to, conds
+
+
 def run_shard(spec):
     mon = Mon(spec)
     part = spec["part"]
     if part == "gen":
         part_gen(spec, mon)
+    elif part == "matrix":
+        part_matrix(spec, mon)
     return mon.result()
 
 
